@@ -237,11 +237,23 @@ func (r *Runner) checkProperty(id string) int {
 		exit = 1
 	}
 	reported := map[*KnownFinding]bool{}
+	var kfReplays []any
 	for _, o := range knownHits {
 		for _, k := range o.Known {
 			if !reported[k] {
 				reported[k] = true
 				fmt.Printf("KNOWN-FINDING: property=%s %s [obligation %s]\n", id, k.What, k.Obligation)
+				if r.tier == "thorough" && k.Replay != "" {
+					// thorough tier: the recorded demonstration is run again against the real code
+					dir := filepath.Join(r.outDir(), "replay", "known-"+sanitize(k.Obligation))
+					_ = os.MkdirAll(dir, 0o755)
+					failed, out := r.runTemplate(o.fc, filepath.Join(r.verif, k.Replay), dir)
+					kfReplays = append(kfReplays, map[string]any{"obligation": k.Obligation, "template": k.Replay, "reproduced": failed})
+					if !failed {
+						fmt.Printf("note: the recorded demonstration of this finding no longer fails on the real code (%s)\n", k.Replay)
+						_ = out
+					}
+				}
 			}
 		}
 	}
@@ -291,6 +303,9 @@ func (r *Runner) checkProperty(id string) int {
 		"contract_files":           relFiles(r.eng.db.Files),
 		"query_timeout_s":          r.queryTimeout(),
 		"slowest_obligation":       map[string]any{"obligation": slowest.name, "seconds": round3(slowest.secs), "second_pass": slowest.retried},
+	}
+	if len(kfReplays) > 0 {
+		cov["known_finding_replays"] = kfReplays
 	}
 	if len(slow) > 0 {
 		// obligations close to the time budget are the ones that may fail for no semantic reason on a busy machine
